@@ -195,8 +195,14 @@ func runReconnectCase(r *vk.Run, mgr *forwarding.Manager, rc reconnectCase) (sig
 	}
 	// poll lists the session until pred holds (bounded); every snapshot is journaled.
 	var last *forwarding.State
+	// preSrc/preDst: the handler's connect counts read BEFORE the snapshot was
+	// taken. The controller replaces its state before it reconnects, so a
+	// snapshot taken after both second connects were seen shows the new loop's
+	// state (reading the counts after the snapshot would allow a stale one).
+	var preSrc, preDst int
 	poll := func(phase string, pred func(*forwarding.State) bool) string {
 		return c33health.waitCond(func() bool {
+			preSrc, preDst = connects()
 			lctx, cancel := context.WithTimeout(ctx, 20*time.Millisecond)
 			defer cancel()
 			_, states, err := mgr.List(lctx, sel, 0)
@@ -286,8 +292,7 @@ func runReconnectCase(r *vk.Run, mgr *forwarding.Manager, rc reconnectCase) (sig
 	k2 := uint64(len(gen2))
 	kAll := k1 + k2
 	switch poll("reconnected", func(st *forwarding.State) bool {
-		cs, cd := connects()
-		return cs >= 2 && cd >= 2 && st.Status == forwarding.Status_ForwardingConnections
+		return preSrc >= 2 && preDst >= 2 && st.Status == forwarding.Status_ForwardingConnections
 	}) {
 	case "ok":
 	case "hang":
